@@ -32,7 +32,7 @@ func (s *Sim) coverState(ctx *StepCtx) {
 		for _, l := range x.QLens {
 			q += l
 		}
-		fmt.Fprintf(h, "s:%d,%d,%d,%d,%d,q%d|", len(x.PDRs), len(x.FARs), len(x.QERs), len(x.URRs), len(x.BARs), bucket(q))
+		fmt.Fprintf(h, "s:%d,%d,%d,%d,%d,q%d|", x.PDRs, x.FARs, x.QERs, len(x.URRs), x.BARs, bucket(q))
 	}
 	var ps []string
 	for p, n := range s.perioGroups() {
